@@ -54,7 +54,8 @@
       settings.  [skeleton_consistent] (DESIGN 3.3) excludes F15; without it the statement is
       false (the marker is decided on the instantiation, the item is the first entry's).
       [Cow] entries (F14, fixed) are instances of their parameter.
-      STILL ONLY CHECKED (not proved): that the relation on the model's IR coincides with what the
+      AT THAT TIME ONLY CHECKED (superseded by UPDATE 3 below, which proves the direction
+      relation => reader): that the relation on the model's IR coincides with what the
       independent reader [Corr.RunC14.conformsb] decides on the PARSED OBSERVED module, i.e. the
       passage through [emit_module] + [parse_module].  It is tied down by a proved-sound boolean
       reader for the relation ([conforms_irb], [C14_conforms_irb_sound]) whose verdict is compared
@@ -70,7 +71,11 @@
       ([C14_prop_conforms_of_corr]).  The scope is necessary ([C14_reader_scope_clauses_needed]):
       the reader is stricter than the relation e.g. on [Cow<Cow<T>>] (fuel) and on a field called
       [__ignore].  The converse (reader accepts => relation) is not proved; on the F15 witness both
-      refuse ([C14_F15_refused_by_reader]).
+      refuse ([C14_F15_refused_by_reader]).  The run evaluates the hypotheses of
+      [C14_prop_conforms_of_corr] on every case (harness/src/c14.rs: tags [corr_module],
+      [corr_model_paths], [hyp_reader_scope], defined in Proofs/ConformsCase.v), so on an in-scope
+      case a [prop_conforms] failure can only appear together with a failing correspondence tag;
+      [corr_conforms_agree] is kept.
 
     Determinism: [example_rust] is a Gallina function of (r, s, id, ws). *)
 From Coq Require Import List NArith ZArith String.
